@@ -80,6 +80,10 @@ STRESS += [
     "multiclass MS<int n = MS> : MS<n> { defm _r : MS<n>; def _d : MS; } defm ms : MS<1>, MS<ms>; defset list<DS> DS = { def ds : DS; defvar v = DS; }",
     "defvar dv = dv; defvar dl = [dl]; defvar dq = !add(dq, 1); foreach fi = [fi] in def fd#fi : fd#fi; foreach fj = !foreach(fj, [1], fj) in def fe#fj;",
     "class Node<int v>; class Use<Node n = Node<1>>; class Node<int v, list<Node> next = [Node<0>]> { int w = v; } def n0 : Node<1, [Node<2>]>; def u0 : Use<n0>;",
+    # references with EMPTY argument lists to classes and multiclasses that require arguments (whole-reference diagnostics sit on nodes
+    # that may be empty), and declarations cut short right behind a name
+    "class Rq<int x>; multiclass MRq<int x> { def _a; } def q1 : Rq<>; def q2 : Rq< >; defm q3 : MRq<>; defvar q4 = Rq<>; class Q5 : Rq<> { Rq r = Rq<>; let r = Rq<>; }",
+    "class Rq<int x, string y>; def e1 : Rq<>, Rq<1>, Rq<,>; def e2 : Rq<x = >; def e3 : Rq<1, y = >; class E4<> : Rq<>; def e5 : ; class E6 : { } let in def e7; foreach = in def e8;",
     "multiclass M { def a; } defm x : M, ; multiclass N { defm y : M, ; } class C<int x>; defm dm : M, C<1 = 2>;",
     "class A<int x, int y = 0>; def d : A<x = 1, x = 2>; def e : A<y = 1>; def f : A<1, 2, 3>;",
     "class Base { int v = 0; } class A : Base; class B : Base; class Z; def a : A; def b : B; def z : Z; defvar x = !if(1, a, b); defvar y = x.v; "
@@ -153,7 +157,8 @@ def workspaces(rng, quick):
         spots = [(m.start(), m.group(0)) for m in re.finditer(r"\.\.\.|[\]})>;=,:-]", t)]
         if not spots:
             continue
-        for at, what in (rng.sample(spots, min(len(spots), 3 if quick else 12))):
+        # (every spot of the hand-written stress texts, a sample of the spots of generated ones)
+        for at, what in (spots if t in STRESS else rng.sample(spots, min(len(spots), 3 if quick else 12))):
             out.append(({"/main.td": t[:at] + alike[what] + t[at + len(what):]}, "/main.td", "lookalike"))
             if rng.random() < 0.3:
                 out.append(({"/main.td": t[:at] + rng.choice(["\u00e9", "\U0001F642", "\u65e5"]) + t[at + len(what):]}, "/main.td", "lookalike"))
